@@ -206,7 +206,7 @@ Fixpoint write_ty (m : mode) (t : ty) (v : val) (w : wst) {struct t} : res wst :
                  (* write_default *)
                  let present := negb (val_eqb d x) in
                  let! w := write_bit_field_entry m w true present in
-                 let! w := (if present then scope_stashed w (fun w => write_ty m ft x w) else Ok w) in
+                 let! w := (if present then with_buffer m w (fun w => scope_stashed w (fun w => write_ty m ft x w)) else Ok w) in
                  fields fs' vals' w
              | _, _ => Panic P_OTHER   (* value does not match the type: outside the model *)
              end) fs vals w in
@@ -221,6 +221,7 @@ Fixpoint write_ty (m : mode) (t : ty) (v : val) (w : wst) {struct t} : res wst :
       scope_stashed w (fun w =>
         let! w := w_put w (w_enumeration_index m std ext index) in
         let content (w : wst) : res wst :=
+          if N.of_nat (length alts) <=? index then Panic P_OTHER else
           (fix pick (alts : list ty) (i : nat) : res wst :=
              match alts, i with
              | a :: _, O => write_ty m a x w
